@@ -1,8 +1,10 @@
 (* C07 - snapshots are self-contained checkpoints; restore resumes from node entry.
-   The model is purely functional: a snapshot is a value, so "nothing the runner does afterwards
-   changes it" and "restored runners do not influence one another" hold of the model by
-   construction; whether the Go code shares maps is what the correspondence family observes (old
-   snapshots are re-read after further steps, two runners are restored from one snapshot).
+   The runner model (Yarn/Runner.v) is purely functional: a snapshot is a value there.  Sharing of
+   Go maps (the defect D8) is treated on a second, heap-explicit model of the same functions
+   (Yarn/SnapHeap.v, theorems at the end of this file): no map is ever shared, so nothing a runner
+   does changes a snapshot or another runner.  That the Go code allocates where the heap model
+   allocates is what the correspondence family observes (old snapshots are re-read after further
+   steps, two runners are restored from one snapshot, restores into any state).
    "Continues exactly as the original" is proved as a simulation (Proofs/SimProofs.v). *)
 From Coq Require Import List ZArith Bool.
 From YS Require Import Base.Sexp Yarn.Ast Yarn.Value Yarn.Eval Yarn.Runner Proofs.SafetyProofs Proofs.FlowProofs Proofs.StorerProofs Proofs.SimProofs.
@@ -70,3 +72,50 @@ Theorem C07_assignments_do_not_touch_the_checkpoint : forall x op e s,
   snap_fields (snd (exec_set x op e s)) = snap_fields s.
 Proof. exact snapshot_only_changes_at_jumps_set. Qed.
 Print Assumptions C07_assignments_do_not_touch_the_checkpoint.
+
+(* ---------- self-containment, on the heap-explicit model (Yarn/SnapHeap.v) ----------
+   Go maps are references; here every map is an object in a heap, runners and snapshots hold
+   addresses, every make+copy loop of Snapshot / RestoreAt / GetValues is an allocation. *)
+From YS Require Import Yarn.SnapHeap Proofs.SnapHeapProofs.
+
+(* in every configuration reachable by any history of runner creations, assignments, jumps,
+   snapshots, restores and host edits of snapshots, no map is shared: by two runners, two
+   snapshots, a runner and a snapshot *)
+Theorem C07_no_map_is_ever_shared : forall ops, Inv (fold_left step ops init_config).
+Proof. exact inv_reachable. Qed.
+Print Assumptions C07_no_map_is_ever_shared.
+
+(* nothing any runner does afterwards (and no edit of another snapshot) changes a snapshot *)
+Theorem C07_snapshot_is_self_contained : forall ops c k s,
+  Inv c -> nth_error (snaps c) k = Some s -> Forall (fun o => edited o <> Some k) ops ->
+  nth_error (snaps (fold_left step ops c)) k = Some s /\
+  snap_content (fold_left step ops c) s = snap_content c s.
+Proof. exact snapshot_never_changes. Qed.
+Print Assumptions C07_snapshot_is_self_contained.
+
+(* nothing other runners do, and nothing the host does to a snapshot (also the one a runner was
+   restored from), changes a runner: runners restored from the same snapshot do not influence one
+   another *)
+Theorem C07_runners_do_not_influence_one_another : forall ops c k r,
+  Inv c -> nth_error (runners c) k = Some r -> Forall (fun o => actor o <> Some k) ops ->
+  nth_error (runners (fold_left step ops c)) k = Some r /\
+  runner_view (fold_left step ops c) r = runner_view c r.
+Proof. exact runner_never_changed_by_others. Qed.
+Print Assumptions C07_runners_do_not_influence_one_another.
+
+(* RestoreAt installs exactly the snapshot's contents (the expressions of the value-based
+   restore_at), and a snapshot taken immediately afterwards equals the restored one *)
+Theorem C07_restore_installs_the_snapshot : forall c i j r s,
+  Inv c -> nth_error (runners c) i = Some r -> nth_error (snaps c) j = Some s ->
+  exists r', nth_error (runners (op_restore c i j)) i = Some r' /\
+    runner_view (op_restore c i j) r' =
+      {| rc_store := fold_left (fun st kv => st_set st (fst kv) (snd kv)) (svars (snap_content c s)) empty_store;
+         rc_visits := svisits (snap_content c s); rc_vsnap := svars (snap_content c s); rc_cur := snode (snap_content c s) |}.
+Proof. exact restore_installs_snapshot. Qed.
+
+Theorem C07_snapshot_taken_after_restore_equals_it : forall c i j r s,
+  Inv c -> nth_error (runners c) i = Some r -> nth_error (snaps c) j = Some s ->
+  let c' := op_snapshot (op_restore c i j) i in
+  exists s', nth_error (snaps c') (length (snaps c)) = Some s' /\ snap_content c' s' = snap_content c s.
+Proof. exact snapshot_after_restore_equals. Qed.
+Print Assumptions C07_snapshot_taken_after_restore_equals_it.
